@@ -105,10 +105,22 @@ def step (st : St) (line : String) : St × String :=
       ({ st with w := w, denoms := addU st.denoms d, contracts := addU st.contracts c }, "ok")
     | none => bad
   | ["addcoin", d, c] =>
-    match str? d, (st.w.byErc20 c).bind st.w.pairs with
-    | some d, some p =>
-      ({ st with w := setPair st.w { p with denoms := p.denoms ++ [d] }, denoms := addU st.denoms d }, "ok")
-    | _, _ => bad
+    match str? d with
+    | some d =>
+      let w := st.w
+      let okk := w.enabled && (w.byDenom d).isNone && ((w.byErc20 c).bind w.pairs).isSome
+      ({ st with w := Convert.step B w (.addCoin d c), denoms := addU st.denoms d }, if okk then "ok" else "err")
+    | none => bad
+  | ["update", old, new, m] =>
+    let w := st.w
+    let okk := ((w.byErc20 old).bind w.pairs).isSome && (w.byErc20 new).isNone && bit m
+    ({ st with w := Convert.step B w (.updateERC20 old new (bit m)), contracts := addU st.contracts new }, if okk then "ok" else "err")
+  | ["tryregcoin", d] =>          -- RegisterCoin for a denomination that is registered already: refused, nothing changes
+    match str? d with
+    | some d => (st, if (st.w.byDenom d).isSome || !st.w.enabled then "err" else "bad-op")
+    | none => bad
+  | ["tryregerc20", c] =>         -- RegisterERC20 for a contract that is registered already
+    (st, if (st.w.byErc20 c).isSome || !st.w.enabled then "err" else "bad-op")
   | ["deploy", k, c, deployer, init] =>
     match kind? k, init.toNat? with
     | some k, some init =>
